@@ -83,7 +83,8 @@ def shard(args):
     """unary and binary lattice for one (system, flavor)"""
     from . import engined as E
     import vector
-    system, mom, shapes = args
+    system, mom, shapes = args[:3]
+    parts = args[3] if len(args) > 3 else ("unary", "binary")
     install()
     F = E.Fails()
     skipped = 0
@@ -136,7 +137,7 @@ def shard(args):
         sid = f"[{','.join(system)}|{'mom' if mom else 'gen'}|shape{shape}]"
         v = make_array(system, mom, "1", shape)
         objs = [element_obj(system, mom, "1", i) for i in range(n_el)]
-        for name, op in ops_unary():
+        for name, op in (ops_unary() if "unary" in parts else ()):
             tag = name + sid
             try:
                 with np.errstate(all="ignore"):
@@ -157,14 +158,47 @@ def shard(args):
                 continue
             compare(tag, res, exp, shape)
         # integer indexing returns the element as the equivalent object (C19, for every value)
-        for i in (0, n_el - 1):
+        for i in ((0, n_el - 1) if "unary" in parts else ()):
             idx = tuple(int(j) for j in np.unravel_index(i, shape))
             try:
                 o = v[idx if len(idx) > 1 else idx[0]]
                 F.check("C03", f"symbolic-numpy/integer-index/{i}{sid}", type(o) is type(objs[i]) and O.sysof(o) == O.sysof(objs[i]) and all(a is b or O.same(a, b) for a, b in zip(O.coords(o), O.coords(objs[i]))))
             except Exception as e:
                 F.check("C03", f"symbolic-numpy/integer-index/{i}{sid}", False, f"{type(e).__name__}: {str(e)[:120]}")
+        # reductions (C17, for every value): Cartesian components of numpy.sum / .sum() are the sums of the elements' Cartesian components
+        # as the object backend computes them, reduced in NumPy's order; axis / keepdims honoured, flavor kept, result Cartesian
+        cart = ("x", "y", "z", "t")[:d]
+        for axis in ([None] + list(range(len(shape))) + [-1]) if "reduce" in parts else ():
+            for keepdims in (False, True):
+                for spelled, f in (("numpy.sum", lambda: np.sum(v, axis=axis, keepdims=keepdims)), (".sum()", lambda: v.sum(axis=axis, keepdims=keepdims))):
+                    tag = f"{spelled}(axis={axis},keepdims={keepdims}){sid}"
+                    try:
+                        res = f()
+                    except Exception as e:
+                        if isinstance(e, TypeError) and "has no length" in str(e) and (axis is None or len(shape) == 1) and not keepdims:
+                            skipped += 1      # a full reduction yields a bare token where NumPy yields a 0-d scalar with .shape: not evaluable on tokens
+                            continue
+                        F.check("C17", f"symbolic-numpy/defined/{tag}", False, f"{type(e).__name__}: {str(e)[:140]}")
+                        continue
+                    ok = isinstance(res, vector.backends.numpy.VectorNumpy) and isinstance(res, vector.Momentum) == mom
+                    F.check("C17", f"symbolic-numpy/sum-class-and-flavor/{tag}", ok, type(res).__name__)
+                    if not ok:
+                        continue
+                    for c in cart:
+                        e_arr = np.empty(n_el, dtype=object)
+                        for i, o in enumerate(objs):
+                            e_arr[i] = getattr(o, c)
+                        exp = np.sum(e_arr.reshape(shape), axis=axis, keepdims=keepdims)
+                        try:
+                            got = getattr(res, c)
+                            same_shape = np.shape(got) == np.shape(exp)
+                            F.check("C17", f"symbolic-numpy/sum-component/{c}/{tag}", same_shape and all(O.same(a, b) for a, b in zip(flat(got), flat(exp))),
+                                    dict(got=repr(flat(got)[-1])[:140], expected=repr(flat(exp)[-1])[:140], shapes=(np.shape(got), np.shape(exp))))
+                        except Exception as e:
+                            F.check("C17", f"symbolic-numpy/sum-component/{c}/{tag}", False, f"{type(e).__name__}: {str(e)[:140]}")
         # scalar argument given as an array broadcasts element by element
+        if "unary" not in parts:
+            continue
         try:
             ks = col("kk", shape)
             res = v.scale(ks)
@@ -176,7 +210,7 @@ def shard(args):
             else:
                 F.check("C03", f"symbolic-numpy/defined/scale(array){sid}", False, str(e)[:140])
         # binary lattice: second operand in every system of compatible dimension, as array and as a single object
-        for s2 in O.systems():
+        for s2 in (O.systems() if "binary" in parts else ()):
             d2 = len(s2) + 1
             for mom2 in (False, True):
                 if (hash((system, s2, mom, mom2)) % 2) and shape != shapes[0]:
